@@ -23,6 +23,7 @@ Some special watchers for the meta-level resources --- i.e. for dimensions ---
 are started and stopped separately, not as part of the orchestration.
 """
 import asyncio
+import contextlib
 import dataclasses
 import functools
 import itertools
@@ -160,7 +161,17 @@ async def orchestrator(
     except asyncio.CancelledError:
         is_exiting = True
         tasks = ensemble.get_tasks(ensemble.get_keys())
-        await aiotasks.stop(tasks, title="streaming", logger=logger, interval=10)
+
+        # Ensure the streams are stopped even if the orchestrator is double-cancelled: e.g., first,
+        # by a failed stream (see above), and then by the operator, which is stopping for any reason.
+        # Otherwise, the streams remain orphaned and run in parallel with the cleanup activities,
+        # and the error of the failed stream is lost --- the same as in `queueing.watcher()`.
+        stopping_task = asyncio.create_task(
+            aiotasks.stop(tasks, title="streaming", logger=logger, interval=10))
+        while not stopping_task.done():
+            with contextlib.suppress(asyncio.CancelledError):
+                await asyncio.shield(stopping_task)
+
         if task_error is None:
             raise
         else:
